@@ -17,12 +17,13 @@ from mc.ref import bencode
 
 P0 = 16384
 BIG = 16_384_001
-A_SIZES = [20000, 40000]
+A_SIZES = [40000, 140000]   # 3 / 9 pieces at 16 KiB, 2 / 5 at 32 KiB
 
 FS_OPS = ["add:n", "del:n", "del:b", "grow:a", "shrink:a", "rewrite:b",
           "biggrow:a", "resize:solo"]
 LIB_OPS = ["create:1", "create:2", "create:3", "create:auto", "create:cliq",
            "create:1:solo", "create:2:solo", "create:3:solo",
+           "create:2:p32", "create:3:p32",
            "edit", "recheck", "rebuild", "magnet"]
 
 
@@ -90,7 +91,7 @@ def write_model(S, m, seed):
             if kind == "size":
                 f.write(world.content(seed, 0, want))
             else:
-                f.write(world.content(seed, 0, 40000))
+                f.write(world.content(seed, 0, 140000))
                 f.seek(want - 1)
                 f.write(b"\x01")
     pb = os.path.join(root, "d", "b")
@@ -225,11 +226,12 @@ def do_lib_op(op, S):
             v = op.split(":")[1]
             if op.endswith(":solo"):
                 root = os.path.join(S, "solo")
+            plen = 2 * P0 if op.endswith(":p32") else P0
             if v == "1":
-                tf.torrent.TorrentFile(path=root, piece_length=P0,
+                tf.torrent.TorrentFile(path=root, piece_length=plen,
                                        outfile=mpath, progress=0).write()
             elif v in "23":
-                tf.torrent.TorrentAssembler(path=root, piece_length=P0,
+                tf.torrent.TorrentAssembler(path=root, piece_length=plen,
                                             outfile=mpath, progress=0,
                                             meta_version=v).write()
             elif v == "auto":
@@ -338,6 +340,9 @@ class HistoryCheck:
             "automatic piece length",
             "a directory root with files from {a, d/b, n} (mutated by the "
             "filesystem actions), a fixed single-file root, one metafile slot",
+            "plus every history of the shape create; X; change; [create;] X "
+            "for X in recheck / rebuild / magnet / edit (depth 4-5), and "
+            "creates at a second piece length (32 KiB)",
             "depth 3 (quick) / 5 (thorough); states deduplicated on "
             "(canonical sandbox, canonical process state) where the process "
             "state is an introspective scan of every module- and class-level "
@@ -367,6 +372,10 @@ class HistoryCheck:
         firsts = fs_enabled(m0) + [op for op in LIB_OPS if op.startswith(
             "create")]
         gs = []
+        rh = self.repeat_histories()
+        for i in range(0, len(rh), 24):
+            gs.append({"kind": "repeat", "histories": rh[i:i + 24],
+                       "seed": seed})
         if tier == "quick":
             for f in firsts:
                 gs.append({"prefix": [f], "depth": depth, "seed": seed})
@@ -380,9 +389,26 @@ class HistoryCheck:
                     gs.append({"prefix": [f, s], "depth": depth, "seed": seed})
         return gs
 
+    def repeat_histories(self):
+        """Depth-4/5 histories of the shape  create ; X ; change ; X  (and
+        create ; X ; change ; create' ; X): the same inspecting operation
+        before and after a filesystem change."""
+        m0 = initial_model()
+        out = []
+        creates = ["create:1", "create:2", "create:3", "create:3:solo",
+                   "create:2:p32"]
+        for c in creates:
+            for x in ("recheck", "rebuild", "magnet", "edit"):
+                for f in fs_enabled(m0):
+                    out.append([c, x, f, x])
+                    out.append([c, x, f, c, x])
+        return out
+
     def run_group(self, g):
         if self.zyg is None:
             self.worker_init_late()
+        if g.get("kind") == "repeat":
+            return self.run_repeat(g)
         res = core.Result()
         seed, depth = g["seed"], g["depth"]
         base = world.fresh_dir("c9_")
@@ -449,6 +475,46 @@ class HistoryCheck:
         res.extra["max_depth"] = max(res.extra.get("max_depth", 0), depth)
         res.sample({"prefix": g["prefix"], "depth": depth,
                     "states": len(seen)})
+        return res
+
+    def run_repeat(self, g):
+        res = core.Result()
+        seed = g["seed"]
+        base = world.fresh_dir("c9p_")
+        n = 0
+        memo = {}
+        for hist in g["histories"]:
+            # judge the last operation of every prefix that ends in a
+            # library operation (prefixes are cheap; states are counted once)
+            n += 1
+            S = os.path.join(base, f"s{n}")
+            r = self.zyg.call({"kind": "history", "ops": list(hist),
+                               "sandbox": S, "seed": seed})
+            res.transitions += 1
+            res.evals += 1
+            res.states += 1
+            last = r["last"]
+            if last is not None:
+                key = (last["op"], last["canon"])
+                if key not in memo:
+                    memo[key] = self.zyg.call({"kind": "single",
+                                               "op": last["op"],
+                                               "sandbox": last["snap"]})
+                res.validated += 1
+                if memo[key] != last["obs"]:
+                    ops_kinds = "+".join(sorted(set(
+                        o.split(":")[0] for o in hist[:-1])))
+                    res.violation(
+                        f"C09|{last['op']}|differs-from-fresh-process|after:"
+                        f"{ops_kinds}", {"ops": list(hist), "seed": seed},
+                        {"in_history": summarize(last["obs"]),
+                         "fresh": summarize(memo[key])})
+                    res.outcomes["differs:" + last["op"]] += 1
+                else:
+                    res.outcomes["same:" + last["op"].split(":")[0]] += 1
+            shutil.rmtree(S, ignore_errors=True)
+            shutil.rmtree(S + ".before", ignore_errors=True)
+        res.sample({"repeat_histories": g["histories"][:2]})
         return res
 
     def worker_init_late(self):
